@@ -1,6 +1,6 @@
 """C05: produce sends each record exactly once to its partition's leader, order kept; confirmations = broker results."""
 import kproto
-from val import T, dumps, some
+from val import T, dumps
 from props.common import brokers, expected_code, pm, rand_bytes
 from props.c12 import xxh32
 
